@@ -687,6 +687,8 @@ EvRunaway == Report("runaway-goroutine", [actor |-> A, last_hook |-> R.last]) /\
 EvBlocked == Report("api-call-blocks", [call |-> R.call, node |-> R.node]) /\ Skip
 EvLeak == Report(IF R.n # 0 THEN "goroutine-leak" ELSE "", [n |-> R.n, sample |-> R.sample]) /\ Skip
 EvTimeout == Report("shutdown-timeout", [node |-> A, what |-> R.what]) /\ Skip
+\* C12: once Done() is closed nothing the controller started is still running - here: no List call of its lister
+EvDoneInflight == Report(IF R.lists > 0 THEN "call-in-flight-after-done" ELSE "", [list_calls_still_running |-> R.lists]) /\ Skip
 EvRetClose == Report(IF R.timeout THEN "close-hangs" ELSE "", [node |-> R.node]) /\ Skip
 EvAfter == Report(IF R.res = "blocked" THEN "call-blocks-after-done"
                   ELSE IF R.res \notin {"ok", "notrunning"} THEN "call-fails-after-done" ELSE "", [node |-> A, call |-> R.call, res |-> R.res]) /\ Skip
@@ -772,6 +774,7 @@ Dispatch ==
     [] e = "race"             -> EvRace
     [] e = "ctl.final"        -> EvCtlFinal
     [] e = "timeout"          -> EvTimeout
+    [] e = "done.inflight"    -> EvDoneInflight
     [] e = "ret.close"        -> EvRetClose
     [] e = "after"            -> EvAfter
     [] e = "evclosed"         -> EvEvClosed
